@@ -15,11 +15,11 @@ static void csdo_cb(CO_CSDO *c, uint16_t idx, uint8_t sub, uint32_t code) { (voi
 
 enum { H_TICK, H_HB0, H_HB3, H_HBC_OFF, H_HBC_3, H_HBC_Y, H_SYNC_ON, H_SYNC_OFF, H_CYC2, H_CYC0, H_EMCY_DIS, H_EMCY_EN, H_TP_INV, H_TP_VAL, H_TP_EVT, H_TP_INH,
        H_HBFRAME, H_SEGDL, H_SEGUL, H_BLKDL, H_BLKUL, H_A3, H_SEG, H_CSDO_REQ, H_CSDO_RESP, H_ESET, H_ECLR, H_LSS_STORE, H_LSS_WAIT, H_START, H_STOP, H_PREOP,
-       H_APP_CREATE, H_APP_DELETE, H_RPDO, H_TRIG, H_ESET9, H_LSS_SEL3, H_LSS_SEL1, H_LSS_REM3, H_SAVE, H_N };
+       H_APP_CREATE, H_APP_DELETE, H_RPDO, H_TRIG, H_ESET9, H_LSS_SEL3, H_LSS_SEL1, H_LSS_REM3, H_SVC, H_SAVE, H_N };
 static const char *const HN[] = { "tick", "SDO 1017h=0", "SDO 1017h=3", "SDO 1016h:1={9,0}", "SDO 1016h:1={9,3}", "SDO 1016h:1={10,2}", "SDO 1005h=40000080h", "SDO 1005h=80h", "SDO 1006h=2000us", "SDO 1006h=0",
        "SDO 1014h disable", "SDO 1014h enable", "SDO 1800h:1 invalid", "SDO 1800h:1 valid", "SDO 1800h:5=2", "SDO 1800h:3=20", "heartbeat of node 9", "open segmented download", "open segmented upload", "open block download",
        "open block upload", "block upload start", "download segment", "SDO client request", "SDO client response", "COEmcySet(2)", "COEmcyClr(2)", "LSS configure node-id 7 + store", "LSS switch waiting", "NMT start", "NMT stop", "NMT pre-op",
-       "app timer create", "app timer delete", "RPDO frame", "COTPdoTrigPdo(0)", "COEmcySet(9)", "LSS selective: vendor, product, revision (matching)", "LSS selective: vendor (matching)", "LSS identify remote slave: vendor, product, revision low (matching)", "SDO 1010h:1='save'" };
+       "app timer create", "app timer delete", "RPDO frame", "COTPdoTrigPdo(0)", "COEmcySet(9)", "LSS selective: vendor, product, revision (matching)", "LSS selective: vendor (matching)", "LSS identify remote slave: vendor, product, revision low (matching)", "tick: interrupt part only (elapsed timers wait for their processing step)", "SDO 1010h:1='save'" };
 
 static const char *cfg_name(int c) { return c == 0 ? "reset communication" : c == 1 ? "reset node" : c == 2 ? "reset communication, OPERATIONAL" : c == 3 ? "reset node, producer config" :
                                             c == 4 ? "reset node, 1017h in a stored communication parameter group" : "reset communication, 1017h in a stored communication parameter group"; }
@@ -78,6 +78,7 @@ static int step(int e)
     if (!sdo_ok && ((e >= H_HB0 && e <= H_TP_INH) || (e >= H_SEGDL && e <= H_SEG))) return MC_SKIP;
     switch (e) {
     case H_TICK: w_tick(&Node, 1); break;
+    case H_SVC: w_tick(&Node, 0); break;          /* the reset may fall between COTmrService and COTmrProcess: timers that have elapsed but not run belong to the old life of the node, too */
     case H_HB0: sdo8(0x2B, 0x1017, 0, 0); break;
     case H_HB3: sdo8(0x2B, 0x1017, 0, 3); break;
     case H_HBC_OFF: sdo8(0x23, 0x1016, 1, (9u << 16) | 0); break;
